@@ -246,11 +246,14 @@ def convertToHash (rate : Nat) (den : Denom) (amt : Int) : Except AErr Int :=
   else if den = "nhash" then .ok amt
   else .error .invalid
 
+/-- the `Increase` call for the stored fee of the message's type, if there is one -/
+def feeCall : Option StoredFee → List FeeDistCall
+  | some f => [(f.den, f.amt, f.bips, f.rcpt)]
+  | none => []
+
 /-- the `Increase` calls `CalculateAdditionalFeesToBePaid` makes for ONE message -/
 def msgCalls (rate : Nat) (stored : List StoredFee) (m : PayMsg) : Except AErr (List FeeDistCall) :=
-  let fromCfg : List FeeDistCall := match stored.find? (·.typ = m.typ) with
-    | some f => [(f.den, f.amt, f.bips, f.rcpt)]
-    | none => []
+  let fromCfg : List FeeDistCall := feeCall (stored.find? (·.typ = m.typ))
   match m.assess with
   | none => .ok fromCfg
   | some (den, amt, bs, rcpt) =>
